@@ -155,6 +155,7 @@ def run(tier: str, seed: int) -> int:
                           key=lambda c: -len(c.decl.variants))
             vreps, vaborts = g.run(["C02"], "miri-thorough" if tier == "quick" else "quick", mode="valgrind",
                                    only=[c.id for c in vsel], timeout=1200 if tier == "quick" else 7200,
+                                   case_timeout=120,
                                    sets=None if tier == "quick" else {"exhaustive_bits": 8, "rand_hist": 40, "pairs_all_n": 16, "pairs_sample": 100})
         phase["release_build_and_valgrind_s"] = round(time.time() - t1, 1)
         sites = {"native": {}, "miri": {}, "valgrind": {}}
@@ -191,7 +192,7 @@ def run(tier: str, seed: int) -> int:
                     inconclusive.append("%s shard %s: %s: %s" % (label, a.get("shard"), a["how"], a["output"][-400:]))
                     continue
                 case = g.cases.get(a["case"])
-                if a["how"] in ("miri-unsupported", "timeout", "harness"):
+                if a["how"] in ("miri-unsupported", "timeout", "harness", "case-timeout"):
                     inconclusive.append("%s: case %d: %s: %s" % (label, a["case"], a["how"], a["output"][-400:]))
                     continue
                 sig = "C02|%s|%s|%s" % (a["how"], case.decl.key(), case.cfg.key())
